@@ -717,7 +717,10 @@ func histConform(r *rep.R, prop string, cfg histCfg, bound int, idx *int64) {
 		// datagram that was already waiting is a matter of timing, so such
 		// executions have no single expected outcome and are left to the
 		// in-memory exploration (where the model fixes the order)
-		Filter: func(x *env.Chooser, i, alt int) bool { return x.Points[i].Menu[alt] != "context-expires" },
+		Filter: func(x *env.Chooser, i, alt int) bool {
+			n := x.Points[i].Menu[alt]
+			return n != "context-expires" && !strings.Contains(n, "context-ends")
+		},
 	}
 	e.Check = func(ch *env.Chooser, obs any) {
 		o := obs.(*histObs)
